@@ -33,13 +33,13 @@ UNTRANS_TAGGED = []
 
 def untrans(what, tag=None):
     """tag: which part of the model the item belongs to (a property that does not depend on that part is
-    not affected): codec | frag | bufs | enc | streamfilter | armor | cs | tag | track | talker"""
+    not affected): codec | frag | bufs | enc | streamfilter | armor | cs | tag | track | talker | filter"""
     if tag is None:
         tag = 'codec'
         for key, t in (('MAX_FRAG_CNT', 'frag'), ('MAX_PAYLOAD_LEN', 'frag'), ('BUF_SIZE', 'bufs'),
                        ('ENCODE_MAX_LEN', 'enc'), ('STREAM_MIN_LEN', 'streamfilter'), ('SHOULD_PARSE', 'streamfilter'),
                        ('PAYLOAD_ARMOR', 'armor'), ('SIX_BIT_ENCODING', 'armor'), ('comm-state', 'cs'),
-                       ('radio types', 'cs'), ('FIELD_CODES', 'tag'), ('AISTrack', 'track'), ('TalkerID', 'talker')):
+                       ('radio types', 'cs'), ('filter function', 'filter'), ('FIELD_CODES', 'tag'), ('AISTrack', 'track'), ('TalkerID', 'talker')):
             if key in what:
                 tag = t
                 break
@@ -926,7 +926,8 @@ def main():
     sys.path.insert(0, os.path.dirname(os.path.abspath(__file__)))
     import translate_fn
     n_before = len(UNTRANS_TAGGED)
-    funcs_src, funcs_done = translate_fn.translate_all(U, M, untrans)
+    import pyais.filter as FLT
+    funcs_src, funcs_done = translate_fn.translate_all(U, M, untrans, FLT)
     if len(UNTRANS_TAGGED) != n_before:
         # the list of untranslatable items is part of Consts.lean
         consts_src = consts_src.replace(
